@@ -176,16 +176,6 @@ def step (d : DS) (op implObs : String) : DS × String × List String :=
     | _ => (d, "bad-kind", generic)
   | _ => (d, "bad-op", [])
 
-/-- The delay a failure reply's `retry in` (minutes, a decimal string) asks for, in nanoseconds, as the repaired
-`tracker.RetryIn` computes it: nothing for anything but a positive decimal number that fits an int, at most a day. -/
-def retryInNs (s : String) : Nat :=
-  -- strconv.Atoi: an optional sign, then decimal digits only
-  let s := if s.startsWith "+" then (s.drop 1).toString else s
-  if s.isEmpty ∨ !s.toList.all Char.isDigit then 0
-  else
-    let n := s.toNat!
-    if n = 0 ∨ n > 9223372036854775807 then 0 else (min n 1440) * 60000000000
-
 /-- `step` on an observation that may carry ` ri=<ns>` (the `RetryIn` of a `*tracker.Error`).  Oracle (C15 pacing
 after a failure reply, C16 bounded back-off): the delay the client takes from a failure reply is the one the
 tracker asked for, in whole minutes, and never more than a day — whatever digits the reply contains. -/
